@@ -550,3 +550,17 @@ Theorem rename_prog_safe : forall src dst data out mode, src <> dst ->
   Tri (held src dst data mode) (rename_prog src dst out mode) (fun _ => arrived src dst out mode) (not_lost src dst data out mode).
 Proof. exact Proofs_WholeRename.rename_prog_safe. Qed.
 Print Assumptions rename_prog_safe.
+
+(* a rename between names written with a leading "./": the walk over emptied parent directories stops at "." (repair 3c70272) *)
+Theorem rename_prog_dot : forall a b out mode w data md,
+  fault w = None -> a <> b -> ~ In 47%N a -> ~ In 47%N b ->
+  lookup (fs w) (dot_name a) = Some (Reg data mode) -> owner_r mode = true -> lookup (fs w) (dot_name b) = None ->
+  lookup (fs w) [46%N] = Some (Dir md) -> owner_x md = true -> owner_w md = true ->
+  exists w',
+    rename_prog (dot_name a) (dot_name b) out mode w = (Ok (0, []), w') /\
+    fs w' = moved (fs w) (umask w) (dot_name a) (dot_name b) out mode /\
+    lookup (fs w') (dot_name b) = Some (Reg out mode) /\ lookup (fs w') (dot_name a) = None /\
+    (forall q, q <> dot_name a -> q <> dot_name b -> lookup (fs w') q = lookup (fs w) q) /\
+    fault w' = None /\ umask w' = umask w.
+Proof. exact Proofs_WholeRename.rename_prog_dot. Qed.
+Print Assumptions rename_prog_dot.
